@@ -19,7 +19,11 @@ pub fn strategy() -> BoxedStrategy<Scenario> {
         ],
         any::<bool>(),
     )
-        .prop_map(|(geo, seed, (fates, script, after), clean)| simgen::scenario(Role::Receiver, geo, seed, false, fates, script, after, (true, true, clean)))
+        .prop_map(|(geo, seed, (fates, script, after), clean)| {
+            let mut sc = simgen::scenario(Role::Receiver, geo, seed, false, fates, script, after, (true, true, clean));
+            sc.pre_existing = seed % 4 == 0;
+            sc
+        })
         .boxed()
 }
 
